@@ -561,7 +561,17 @@ pub fn object_is_frozen(
     let obj = args.first().cloned().unwrap_or(JsValue::Undefined);
 
     let is_frozen = match obj {
-        JsValue::Object(obj_ref) => obj_ref.borrow().frozen,
+        // Frozen by Object.freeze, or in the same state by other means: not extensible and
+        // every property read-only and non-configurable
+        JsValue::Object(obj_ref) => {
+            let o = obj_ref.borrow();
+            o.frozen
+                || (!o.extensible
+                    && o.array_length().unwrap_or(0) == 0
+                    && o.properties.iter().all(|(_, prop)| {
+                        !prop.configurable() && (prop.is_accessor() || !prop.writable())
+                    }))
+        }
         _ => true, // Non-objects are considered frozen
     };
 
@@ -598,7 +608,16 @@ pub fn object_is_sealed(
     let obj = args.first().cloned().unwrap_or(JsValue::Undefined);
 
     let is_sealed = match obj {
-        JsValue::Object(obj_ref) => obj_ref.borrow().sealed,
+        // Sealed by Object.seal or Object.freeze, or in the same state by other means: not
+        // extensible and every property non-configurable
+        JsValue::Object(obj_ref) => {
+            let o = obj_ref.borrow();
+            o.sealed
+                || o.frozen
+                || (!o.extensible
+                    && o.array_length().unwrap_or(0) == 0
+                    && o.properties.iter().all(|(_, prop)| !prop.configurable()))
+        }
         _ => true, // Non-objects are considered sealed
     };
 
@@ -937,6 +956,19 @@ pub fn object_define_property(
         return Ok(Guarded::unguarded(obj));
     }
 
+    // A frozen object takes no definition, and one that is not extensible no new property
+    {
+        let target = obj_ref.borrow();
+        let exists = target.get_own_property(&key).is_some()
+            || matches!(key, PropertyKey::Index(i) if target.array_length().is_some_and(|len| i < len));
+        if target.frozen || (!exists && (!target.extensible || target.sealed)) {
+            return Err(JsError::type_error(format!(
+                "Cannot define property {}, object is not extensible",
+                key
+            )));
+        }
+    }
+
     // Pre-intern descriptor property keys
     let value_key = PropertyKey::String(interp.intern("value"));
     let writable_key = PropertyKey::String(interp.intern("writable"));
@@ -945,30 +977,48 @@ pub fn object_define_property(
     let get_key = PropertyKey::String(interp.intern("get"));
     let set_key = PropertyKey::String(interp.intern("set"));
 
+    // Fields the descriptor leaves out keep the existing property's values (an array element
+    // is a writable, enumerable, configurable data property), or default to undefined / false
+    let existing = {
+        let target = obj_ref.borrow();
+        match target.get_own_property(&key) {
+            Some(prop) => Some(prop.clone()),
+            None => match (&key, target.array_elements()) {
+                (PropertyKey::Index(i), Some(elements)) => {
+                    elements.get(*i as usize).map(|v| Property::data(v.clone()))
+                }
+                _ => None,
+            },
+        }
+    };
+
     // Get descriptor properties
     let desc_borrowed = desc_ref.borrow();
-    let value = desc_borrowed
-        .get_property(&value_key)
-        .unwrap_or(JsValue::Undefined);
-    let writable = desc_borrowed
-        .get_property(&writable_key)
-        .map(|v| v.to_boolean())
-        .unwrap_or(false);
-    let enumerable = desc_borrowed
-        .get_property(&enumerable_key)
-        .map(|v| v.to_boolean())
-        .unwrap_or(false);
-    let configurable = desc_borrowed
-        .get_property(&configurable_key)
-        .map(|v| v.to_boolean())
-        .unwrap_or(false);
-
     // Check for getter/setter
     let getter = desc_borrowed.get_property(&get_key);
     let setter = desc_borrowed.get_property(&set_key);
-    drop(desc_borrowed);
-
     let is_accessor = getter.is_some() || setter.is_some();
+    // (the data fields of an accessor being replaced do not carry over, and vice versa)
+    let same_kind = existing.as_ref().filter(|prop| prop.is_accessor() == is_accessor);
+
+    let value = desc_borrowed.get_property(&value_key).unwrap_or_else(|| {
+        same_kind
+            .map(|prop| prop.value.clone())
+            .unwrap_or(JsValue::Undefined)
+    });
+    let writable = desc_borrowed
+        .get_property(&writable_key)
+        .map(|v| v.to_boolean())
+        .unwrap_or_else(|| same_kind.is_some_and(|prop| prop.writable()));
+    let enumerable = desc_borrowed
+        .get_property(&enumerable_key)
+        .map(|v| v.to_boolean())
+        .unwrap_or_else(|| existing.as_ref().is_some_and(|prop| prop.enumerable()));
+    let configurable = desc_borrowed
+        .get_property(&configurable_key)
+        .map(|v| v.to_boolean())
+        .unwrap_or_else(|| existing.as_ref().is_some_and(|prop| prop.configurable()));
+    drop(desc_borrowed);
 
     if is_accessor {
         // Accessor descriptor
